@@ -124,6 +124,19 @@ func c03Case(c *mon.Ctx, idx int, r *mon.Rand) {
 	c.Distinct(mon.Hash64(fmt.Sprint(effDur, form, effV, effD)))
 
 	name := "h" + r.Ident(6)
+	// Twins: other bucket sets that collide with this spec in the root-wide
+	// bucket cache (same kind and length with an equal element sum; the same
+	// bit patterns in the other kind; a permutation with one element changed).
+	// Created under the same root before (2/3) or after (1/3) the histogram
+	// under test, which must keep using its own bounds.
+	var twins []tally.Buckets
+	twinsFirst := r.Intn(3) != 0
+	if form == "given" && r.Intn(3) != 0 {
+		twins = c03Twins(r, effDur, effV, effD)
+		if len(twins) > 0 {
+			c.Class("cases-with-colliding-twin-histograms", 1)
+		}
+	}
 	record := func(h tally.Histogram) {
 		// wrong-type samples first and in the middle: must change nothing
 		if effDur {
@@ -168,7 +181,27 @@ func c03Case(c *mon.Ctx, idx int, r *mon.Rand) {
 			root = ts
 		}
 		var h tally.Histogram
-		if c.Guard("panic-create", detail, func() { h = root.Histogram(name, arg) }) {
+		mkTwins := func() {
+			for ti, tw := range twins {
+				var th tally.Histogram
+				if ti%2 == 0 {
+					th = root.SubScope("twin").Histogram(fmt.Sprintf("tw%d", ti), tw)
+				} else {
+					th = root.Tagged(map[string]string{"twin": "1"}).Histogram(fmt.Sprintf("tw%d", ti), tw)
+				}
+				th.RecordValue(1)
+				th.RecordDuration(1)
+			}
+		}
+		if c.Guard("panic-create", detail, func() {
+			if twinsFirst {
+				mkTwins()
+			}
+			h = root.Histogram(name, arg)
+			if !twinsFirst {
+				mkTwins()
+			}
+		}) {
 			continue
 		}
 		rounds := 1 + r.Intn(2)
@@ -206,6 +239,7 @@ func c03Case(c *mon.Ctx, idx int, r *mon.Rand) {
 			} else {
 				log, _, _ = crec.Snapshot()
 			}
+			log = eventsNamed(log, name)
 			pairsV := mon.RefPairsV(effV)
 			pairsD := mon.RefPairsD(effD)
 			var allocV []mon.PairV
@@ -430,4 +464,83 @@ func bucketsSameV(got tally.Buckets, form string, eff []float64) bool {
 		}
 	}
 	return true
+}
+
+func eventsNamed(log []mon.Event, name string) []mon.Event {
+	out := log[:0:0]
+	for _, e := range log {
+		if e.Name == name {
+			out = append(out, e)
+		}
+	}
+	return out
+}
+
+// c03Twins derives bucket sets that differ from the given spec but have the
+// same additive identity.
+func c03Twins(r *mon.Rand, isDur bool, v []float64, d []time.Duration) []tally.Buckets {
+	var out []tally.Buckets
+	if isDur {
+		if len(d) >= 2 {
+			for try := 0; try < 4 && len(out) < 2; try++ {
+				i, j := r.Intn(len(d)), r.Intn(len(d))
+				if i == j {
+					continue
+				}
+				delta := time.Duration(r.Range(1, 1000))
+				if r.Bool() {
+					delta = time.Duration(r.U64() >> uint(2+r.Intn(60)))
+				}
+				a, b := d[i]+delta, d[j]-delta
+				if delta <= 0 || a < d[i] || b > d[j] || (a == d[j] && b == d[i]) {
+					continue
+				}
+				t := append([]time.Duration(nil), d...)
+				t[i], t[j] = a, b
+				out = append(out, tally.DurationBuckets(t))
+			}
+		}
+		if len(d) >= 1 {
+			t := make([]float64, len(d))
+			ok := true
+			for i, x := range d {
+				t[i] = math.Float64frombits(uint64(x))
+				if math.IsNaN(t[i]) || math.IsInf(t[i], 0) {
+					ok = false
+				}
+			}
+			if ok {
+				out = append(out, tally.ValueBuckets(t))
+			}
+		}
+		return out
+	}
+	if len(v) >= 2 {
+		for try := 0; try < 4 && len(out) < 2; try++ {
+			i, j := r.Intn(len(v)), r.Intn(len(v))
+			if i == j {
+				continue
+			}
+			delta := uint64(r.Range(1, 1<<20)) << uint(r.Intn(32))
+			bi, bj := math.Float64bits(v[i]), math.Float64bits(v[j])
+			a, b := math.Float64frombits(bi+delta), math.Float64frombits(bj-delta)
+			if bi+delta < bi || bj-delta > bj || math.IsNaN(a) || math.IsNaN(b) || math.IsInf(a, 0) || math.IsInf(b, 0) {
+				continue
+			}
+			if bi+delta == bj && bj-delta == bi {
+				continue
+			}
+			t := append([]float64(nil), v...)
+			t[i], t[j] = a, b
+			out = append(out, tally.ValueBuckets(t))
+		}
+	}
+	if len(v) >= 1 {
+		t := make([]time.Duration, len(v))
+		for i, x := range v {
+			t[i] = time.Duration(math.Float64bits(x))
+		}
+		out = append(out, tally.DurationBuckets(t))
+	}
+	return out
 }
